@@ -331,6 +331,23 @@ def search(ctx, res):
     err = np.abs(x - y).max()
     if err > 1e-6:
         res.fail("su2:euler-boost-product", "Euler angles of B(-w)Rz(a)B(w) do not reproduce the rotation: residual %.3g" % err, {"op": "euler-boost"})
+    # general rotation-boost products (the statement of C12e.euler_roundtrip_two_routes): L = Ry(b2) Bz(w) Rz(a2) is det 1 but not
+    # unitary; (W L) L^-1 must be the pure rotation W, and its Euler angles must reproduce W; L^-1 L = 1 for boost-containing L
+    L = SU2M.Rotation_y(tfc(b2)) * SU2M.Boost_z(tfc(w)) * SU2M.Rotation_z(tfc(a2))
+    mat = lambda M: np.array([[M["x"][i][j].numpy() for j in range(2)] for i in range(2)])  # noqa: E731
+    X = (R1 * L) * L.inv()
+    eX = SU2M.get_euler_angle(X)
+    Rx = SU2M.Rotation_z(eX["gamma"]) * SU2M.Rotation_y(eX["beta"]) * SU2M.Rotation_z(eX["alpha"])
+    e_inv = float(np.abs(mat(L.inv() * L) - np.eye(2)[:, :, None]).max())
+    e_prod = float(np.abs(mat(X) - mat(R1)).max())
+    e_eul = float(np.abs(mat(Rx) - mat(R1)).max())
+    scale = float(np.exp(np.max(w)))  # entries of L are up to exp(w/2): products of two of them up to exp(w)
+    if e_inv > 1e-12 * scale:
+        res.fail("su2:inverse:boost", "SU2M.inv() of Ry(b) Bz(w) Rz(a) is not its inverse: |L^-1 L - 1| = %.3g" % e_inv, {"op": "inv-boost"})
+    elif e_prod > 1e-11 * scale:
+        res.fail("su2:rotation-boost-product", "(W L) L^-1 with L = Ry(b) Bz(w) Rz(a) is not the rotation W: residual %.3g" % e_prod, {"op": "rbr"})
+    elif e_eul > 1e-6:
+        res.fail("su2:euler-boost-product", "Euler angles of (W L) L^-1 (a rotation-boost product that composes to the rotation W) do not reproduce W: residual %.3g" % e_eul, {"op": "rbr-euler"})
     # inverse
     inv = R1.inv() * R1
     xi = np.array([[inv["x"][i][j].numpy() for j in range(2)] for i in range(2)])
